@@ -572,7 +572,7 @@ func ruleTermStepdown() *Rule {
 				}
 				stateAtom := p.StateAtom()
 				labels := append([]string{"no"}, sites...)
-				sp := NewSpace(stateAtom, GhostAtom("stepDownOwedBy", labels...), GhostAtom("selfVoteOwedBy", labels...))
+				sp := NewSpace(stateAtom, GhostAtom("stepDownOwedBy", labels...), GhostAtom("selfVoteOwedBy", labels...), GhostAtom("selfVotedInSection", "no", "yes"))
 				a := NewAnalysis(p, sp)
 				L := enumIdx(stateAtom, "Leader")
 				pos := map[int]string{}
@@ -594,7 +594,13 @@ func ruleTermStepdown() *Rule {
 							pos[si] = p.InstrPos(in)
 							if isLoadPlusOne(p, s.Val, "Raft.currentTerm") {
 								kind[si] = "increment"
-								return sp.Assign(st, 2, si)
+								// the self vote may precede or follow the increment within the critical section
+								return sp.Map(st, 2, func(pt, old int) uint32 {
+									if sp.Val(pt, 3) == 1 {
+										return 1 << uint(old)
+									}
+									return 1 << uint(si)
+								})
 							}
 							kind[si] = "assign"
 							return sp.Map(st, 1, func(pt, old int) uint32 {
@@ -611,19 +617,20 @@ func ruleTermStepdown() *Rule {
 							}
 						case votedFor:
 							if p.Canon(f, s.Val).S == "r.id" {
-								return sp.Assign(st, 2, 0)
+								return sp.Assign(sp.Assign(st, 2, 0), 3, 1)
 							}
+							return sp.Assign(st, 3, 0)
 						}
 						return st
 					}
 					if what, ok := a.isSectionEnd(in); ok {
 						n := instrOrdinal(in, func(x ssa.Instruction) bool { _, ok := a.isSectionEndStatic(x); return ok })
 						a.Observe("END "+what+ordSuffix(n)+" in "+chainKey(f), f, in, st)
-						return sp.Assign(sp.Assign(st, 1, 0), 2, 0)
+						return sp.Assign(sp.Assign(sp.Assign(st, 1, 0), 2, 0), 3, 0)
 					}
 					return st
 				}
-				a.RunFrame(NewRootFrame(root), sp.Filter(sp.Filter(sp.Top(), 1, 1), 2, 1))
+				a.RunFrame(NewRootFrame(root), sp.Filter(sp.Filter(sp.Filter(sp.Top(), 1, 1), 2, 1), 3, 1))
 				owedSD, owedSV := map[int][]string{}, map[int][]string{}
 				for _, o := range a.SortedObs() {
 					for i := 1; i <= len(sites); i++ {
